@@ -567,6 +567,73 @@ FLEET['G20'] = dict(
     values=['node', 'mnode'],
 )
 
+# terms WITHOUT a value, declared the way the readme recommends (typed_term(..., ftors::create<no_type>{})), in a grammar
+# with error rules: the value variant then holds both no_type (the error symbol's value) and term_value<no_type>
+FLEET['G21'] = dict(
+    terms=[
+        ('num', T('regex', '[0-9]+', 'num', typed=True)),
+        ('semi', T('char', ';', typed='no_type')),
+        ('plus', T('char', '+', typed='no_type')),
+    ],
+    nterms=['list', 'item'],
+    root='list',
+    rules=[
+        ('item', ['num'], 'plain'),
+        ('list', [], 'plain'),
+        ('list', ['list', 'item', 'semi'], 'plain'),
+        ('item', ['item', 'plus', 'num'], 'ctx'),
+        ('list', ['list', 'error', 'semi'], 'plain'),
+    ],
+    values=['node', 'mnode'],
+)
+
+
+# mutually LEFT-recursive nonterminals (A -> B x | a, B -> A y | b): FIRST(A) = FIRST(B) = {a, b} is a least fixed point
+# that a single recursive pass with memoisation does not reach. Language: c (b|a)(x y)* | d (a|b) ... see rules
+FLEET['G22'] = dict(
+    terms=[
+        ('a', T('char', 'a')),
+        ('b', T('char', 'b', typed=True)),
+        ('c', T('char', 'c')),
+        ('d', T('char', 'd')),
+        ('x', T('char', 'x')),
+        ('y', T('char', 'y')),
+    ],
+    nterms=['S', 'C', 'D', 'A', 'B'],
+    root='S',
+    rules=[
+        ('S', ['C', 'B'], 'plain'),
+        ('S', ['D', 'A'], 'plain'),
+        ('C', ['c'], 'plain'),
+        ('D', ['d'], 'plain'),
+        ('A', ['B', 'x'], 'plain'),
+        ('A', ['a'], 'plain'),
+        ('B', ['A', 'y'], 'ctx'),
+        ('B', ['b'], 'plain'),
+    ],
+    values=['node', 'mnode'],
+)
+
+
+# the same for "can derive the empty string": A -> B z | (empty), B -> A C, C -> (empty); B is nullable only through A,
+# which is still being evaluated when B is first asked. Language: z* t
+FLEET['G23'] = dict(
+    terms=[
+        ('z', T('char', 'z', typed=True)),
+        ('t', T('char', 't')),
+    ],
+    nterms=['S', 'A', 'B', 'C'],
+    root='S',
+    rules=[
+        ('S', ['B', 't'], 'plain'),
+        ('A', ['B', 'z'], 'plain'),
+        ('A', [], 'plain'),
+        ('B', ['A', 'C'], 'ctx'),
+        ('C', [], 'plain'),
+    ],
+    values=['node'],
+)
+
 # standalone regex matchers (regex::expr<P>)
 REGEXES = {
     'R1': 'ab*c',
